@@ -212,6 +212,20 @@ Lemma st_ret : forall id off rpc stamp save outer sc' pc st fk vs l o g, at_ pc 
   Next (N save (S rpc) st fk vs l
           (if (match fk with [] => true | f :: _ => f_ctr f <=? stamp end) then off else o) g).
 Proof. intros. stp H. destruct save; [congruence|reflexivity]. Qed.
+(* opcallrec: the locals become (callpc, index) = (-1, scopes.index); the opscope it jumps to then pops the current
+   frame (popscope, with its free test) and pushes the new one with the popped frame's return pc and saveindex *)
+Lemma st_callrec : forall sc pc p st fk vs l o g, at_ pc (Icallrec p) ->
+  step nt code (N sc pc st fk vs l o g) = Next (N sc p st fk vs l o {| ctr := ctr g; creg := (None, sc) |}).
+Proof. intros. stp H. Qed.
+Lemma st_scope_rec : forall id1 off1 rpc1 stamp1 save1 out1 tl pc id nv na st fk vs l o g idx,
+  at_ pc (Iscope id nv na) -> creg g = (None, idx) ->
+  step nt code (N (Frame id1 off1 rpc1 stamp1 save1 out1 :: tl) pc st fk vs l o g) =
+  Next (N (Frame id (if (match fk with [] => true | f :: _ => f_ctr f <=? stamp1 end) then off1 else o) rpc1 (ctr g) save1
+             (outer_of save1 id idx) :: save1) (S pc) st fk
+          (grow vs ((if (match fk with [] => true | f :: _ => f_ctr f <=? stamp1 end) then off1 else o) + nv)) l
+          ((if (match fk with [] => true | f :: _ => f_ctr f <=? stamp1 end) then off1 else o) + nv)
+          {| ctr := S (ctr g); creg := creg g |}).
+Proof. intros. stp H. rewrite H0. reflexivity. Qed.
 (* opret in the main frame: Next returns the value *)
 Lemma st_ret_main : forall id off rpc stamp outer pc v st fk vs l o g, at_ pc Iret ->
   step nt code (N [Frame id off rpc stamp [] outer] pc (SV v :: st) fk vs l o g) =
